@@ -38,14 +38,18 @@ def bitstrings(n):
 
 
 def make_cases(maps, n, rng, *, prefixes=((),), modes=("committed",), mutants=0, multis=0, updates=0, limit=None,
-               store_cfgs=None):
+               store_cfgs=None, sparse=0):
     cases = []
     cid = 0
     order = list(range(len(maps)))
     rng.shuffle(order)
     if limit:
-        # keep the empty / singleton / small maps plus a random rest
-        order = sorted(order, key=lambda i: (len(maps[i]) > 1, rng.random()))[:limit]
+        # keep the empty / singleton maps, `sparse` maps of 2-3 keys (tries in which single leaves sit high up and
+        # compaction across emptied sub-tries happens) plus a random rest
+        tiny = [i for i in order if len(maps[i]) <= 1]
+        few = [i for i in order if 2 <= len(maps[i]) <= 3][:sparse]
+        rest = [i for i in order if i not in set(tiny) | set(few)]
+        order = (tiny + few + rest)[:limit]
     for i in order:
         kv = maps[i]
         pre = list(rng.choice(prefixes))
@@ -150,7 +154,7 @@ PLANS = {
                               prefixes=[(), (1,), (0, 1, 1, 0, 1), (1, 0, 1, 1, 0, 1), (1, 0, 1, 1, 0, 1, 0), tuple([1, 0] * 6)],
                               modes=["committed", "overlay", "reopen"], mutants=0, multis=0, updates=0, extra_n4=400)),
     "C07": dict(quick=dict(mc=(3, 4), n=3, maxkeys=8, limit=160, prefixes=[(), (0, 1)], modes=["committed"],
-                           mutants=0, multis=12, updates=3),
+                           mutants=0, multis=10, updates=3, sparse=90),
                 thorough=dict(mc=(3, 8), n=3, maxkeys=8, limit=None, prefixes=[(), (1,), (0, 1, 1, 0, 1, 1)],
                               modes=["committed", "reopen"], mutants=0, multis=12, updates=6, extra_n4=400)),
     "C08": dict(quick=dict(mc=(3, 4), n=3, maxkeys=8, limit=100, prefixes=[(), (0, 1)], modes=["committed"],
@@ -185,7 +189,7 @@ def run_plan(pid, tier, seed):
     # 2. maps exported by TLC
     maps = export_maps(plan["n"], plan["maxkeys"], pid)
     cases = make_cases(maps, plan["n"], rng, prefixes=plan["prefixes"], modes=plan["modes"], mutants=plan["mutants"],
-                       multis=plan["multis"], updates=plan["updates"], limit=plan["limit"])
+                       multis=plan["multis"], updates=plan["updates"], limit=plan["limit"], sparse=plan.get("sparse", 0))
     if plan.get("extra_n4"):
         maps4 = export_maps(4, 5, pid + "n4", vals=("a",))
         cases += [dict(c, id=c["id"] + 100000) for c in
